@@ -277,6 +277,12 @@ def inject(text, anchor, where, code, count=1):
     """insert `code` before/after the statement containing the match of `anchor`
     ('before' | 'after' | 'at' (replace match end))."""
     m = mask(text)
+    if where == "end":
+        k = m.rstrip().rfind("}")
+        return text[:k] + "\n" + code + "\n" + text[k:], 1
+    if where == "start":
+        k = m.index("{")
+        return text[:k + 1] + "\n" + code + "\n" + text[k + 1:], 1
     ms = list(re.finditer(anchor, m, re.S))
     if len(ms) != count:
         raise Undecided("inject: anchor %r matched %d times, expected %d" % (anchor, len(ms), count))
@@ -350,7 +356,7 @@ def apply_rules(text, rules, log, fn):
         elif kind == "R18":
             text, k = r18_for_to_index(text, *r[1:])
         elif kind == "R14":
-            text, k = r14_leaf(text, r[1], r[2], log.setdefault("_leaves", {}))
+            text, k = r14_leaf(text, r[1], r[2], log.setdefault("_leaves", {}), *(r[3:]))
         elif kind == "sub":
             # ("sub", id, pat, repl[, count])
             text, k = sub(text, r[2], r[3], r[4] if len(r) > 4 else None, name=r[1])
